@@ -84,7 +84,11 @@ def run_api(ctx, cases, exes, G):
         o, fails = vf.par_lines(exes[b], lines[b])
         if fails:
             sh, rc, err, _ = fails[0]
-            l, rc1, err1 = vf.isolate_failure(exes[b], sh)
+            l = None
+            for f in fails:                      # a crash may depend on heap state: look for a line that fails alone
+                l, rc1, err1 = vf.isolate_failure(exes[b], f[0])
+                if l:
+                    break
             ctx.violation('crash.boolop', 'boolean operation crashed or hung (rc=%s, build %s): %s' % (rc1 if l else rc, b, (err1 or err)[-300:]),
                           replay=dict(build=b, line=l or sh[:20]))
             return
